@@ -735,8 +735,10 @@ impl<'a> Gen<'a> {
             Profile::Small => 3,
             _ => 4,
         };
-        let lo = if big { self.rng.below(30) as u32 } else { self.rng.below(maxb) as u32 };
-        let d = if big { self.rng.below(12) as u32 } else { self.rng.below(maxb) as u32 };
+        // (one in six of the big ones: any bound up to 300, e.g. 100 or 128, not only what is next to a power of two)
+        let wide_range = big && self.rng.chance(1, 6);
+        let lo = if wide_range { self.rng.below(300) as u32 } else if big { self.rng.below(30) as u32 } else { self.rng.below(maxb) as u32 };
+        let d = if wide_range { self.rng.below(40) as u32 } else if big { self.rng.below(12) as u32 } else { self.rng.below(maxb) as u32 };
         let k = if small { Kind::LoopAtom } else { Kind::Other };
         let op = match self.rng.below(12) {
             0 | 1 => Op::Star(body),
@@ -997,7 +999,7 @@ impl<'a> Gen<'a> {
     /// a union / intersection-of-complements / concatenation with exactly N operands, N around a power of two
     /// a wide union as ONE constructor step (operand counts around 2^6, 2^7, 2^8), then one operator on top
     fn gen_wide_macro(&mut self) {
-        let n = *self.rng.pick(&[65u32, 66, 100, 129, 255, 256, 257, 300]);
+        let n = if self.rng.chance(1, 2) { *self.rng.pick(&[65u32, 66, 100, 129, 255, 256, 257, 300]) } else { 5 + self.rng.below(296) as u32 };
         let s1 = 1 + self.rng.below(2) as u32;
         let b1 = match self.rng.below(4) {
             0 => 0,
